@@ -145,7 +145,9 @@ func opConc(args []string) string {
 					res[g] = fmt.Sprintf("differ:%d:user", g)
 					return
 				}
-				if got, want := concStreamPipeline(g, runtime.Gosched), streamSeq[g]; got != want {
+				if round >= 8 && round%10 != 0 {
+					// the streaming pipeline is the expensive part: every round at first, then every tenth
+				} else if got, want := concStreamPipeline(g, runtime.Gosched), streamSeq[g]; got != want {
 					res[g] = fmt.Sprintf("differ:%d:stream", g)
 					return
 				}
